@@ -525,6 +525,67 @@ func initCollide() {
 		}
 	}
 	strCollide = append(strCollide, "k0")
+	initFullCollide()
+}
+
+// fullCollide: per type, groups of DISTINCT keys whose *full* hash value (the value the type caches in
+// keyHash / compares / re-buckets with) is identical — they share a bucket at every table size, so only
+// the key comparison tells them apart.
+var fullCollide = map[string][][]key{}
+
+// crcPairs finds pairs of distinct printable strings with the same hash.HashStr (CRC-32) by a
+// deterministic birthday search over "c0", "c1", …
+func crcPairs(want int) [][]key {
+	// names: 8 characters of [A-Za-z0-9] drawn from a fixed LCG (decimal counters do not work: CRC-32 is
+	// affine and the few varying bits of same-length digit strings never cancel)
+	const alpha = "ABCDEFGHIJKLMNOPQRSTUVWXYZabcdefghijklmnopqrstuvwxyz0123456789"
+	seen := make(map[int32]string, 1<<19)
+	var out [][]key
+	x := uint64(0x9E3779B97F4A7C15)
+	buf := make([]byte, 8)
+	for i := 0; i < 4000000 && len(out) < want; i++ {
+		for j := range buf {
+			x = x*6364136223846793005 + 1442695040888963407
+			buf[j] = alpha[(x>>33)%uint64(len(alpha))]
+		}
+		s := string(buf)
+		h := hash.HashStr(s)
+		if p, ok := seen[h]; ok && p != s {
+			out = append(out, []key{{s: p}, {s: s}})
+		} else {
+			seen[h] = s
+		}
+	}
+	return out
+}
+
+func ik(xs ...int64) []key {
+	var out []key
+	for _, x := range xs {
+		out = append(out, key{i: x})
+	}
+	return out
+}
+
+func initFullCollide() {
+	crc := crcPairs(5)
+	for _, n := range []string{"StringKeyLinkedMap", "StringIntLinkedMap", "StringLongLinkedMap"} {
+		fullCollide[n] = crc // hash() = uint(hash.HashStr(key)), cached in keyHash
+	}
+	// StringLinkedSet: stringutil.HashCode (31-polynomial): "Aa"/"BB" and their concatenations collide
+	fullCollide["StringLinkedSet"] = [][]key{{{s: "Aa"}, {s: "BB"}}, {{s: "AaAa"}, {s: "BBBB"}, {s: "AaBB"}, {s: "BBAa"}}, {{s: "AaBBAa"}, {s: "BBAaBB"}}}
+	// IntKeyLinkedMap: hash = key & MaxInt32 (sign bit masked): k and k+MinInt32 collide
+	const min32 = math.MinInt32
+	fullCollide["IntKeyLinkedMap"] = [][]key{ik(0, min32), ik(math.MaxInt32, -1), ik(101, 101+min32), ik(8344921, 8344921+min32), ik(7, 7+min32)}
+	// LongKeyLinkedMap: hash = uint(key ^ key>>32) (arithmetic shift): k and ^k collide
+	fullCollide["LongKeyLinkedMap"] = [][]key{ik(0, -1), ik(5, -6), ik(math.MaxInt64, math.MinInt64), ik(101, -102), ik(1<<32|1, ^(1<<32 | 1)), ik(8344921, -8344922)}
+	// hash = uint(key) is injective for the remaining int/long types; keys that agree in their low 32
+	// bits (they would collide under any 32-bit cached hash) are kept as a defensive family
+	lo32 := [][]key{ik(5, 5+1<<32, 5-1<<32), ik(-1, -1+1<<32, 1<<33-1), ik(101, 101+1<<32)}
+	fullCollide["LongLongLinkedMap"] = lo32
+	fullCollide["LongFloatLinkedMap"] = lo32
+	// LinkedMap / LinkedSet: the harness' LinkedKey hash modes 1 (|id| mod 3) and 2 (constant) make whole
+	// pools collide on the full cached hash
 }
 
 func keyPool(t *tdesc, r *vh.Rng) []key {
@@ -568,6 +629,27 @@ func keyPool(t *tdesc, r *vh.Rng) []key {
 	pool := append([]key(nil), cand[:n]...)
 	if t.kkind == 's' && r.Chance(35) {
 		pool[0] = key{s: ""}
+	}
+	// whole groups of keys with an identical full hash
+	if gs := fullCollide[t.name]; len(gs) > 0 && r.Chance(50) {
+		have := map[key]bool{}
+		for _, k := range pool {
+			have[k] = true
+		}
+		for g := 0; g < 1+r.Intn(2); g++ {
+			for _, k := range gs[r.Intn(len(gs))] {
+				if !have[k] {
+					have[k] = true
+					pool = append(pool, k)
+				}
+			}
+		}
+		if r.Chance(40) { // a pool of colliding keys only
+			pool = pool[n:]
+			if len(pool) == 0 {
+				pool = append(pool, gs[0]...)
+			}
+		}
 	}
 	return pool
 }
@@ -680,7 +762,37 @@ func genGrowth(t *tdesc, r *vh.Rng, avail map[string]bool, n int) []op {
 		return key{i: x}
 	}
 	modes := []string{"L", "L", "FL", "FF"}
+	var gk []key
+	for _, g := range fullCollide[t.name] {
+		gk = append(gk, g...)
+	}
+	probeOp := func() op {
+		k := gk[r.Intn(len(gk))]
+		switch r.Intn(5) {
+		case 0:
+			return op{code: "P", mode: modes[r.Intn(4)], k: k, v: genVal(t, r)}
+		case 1:
+			return op{code: "R", k: k}
+		case 2:
+			if avail["A"] {
+				return op{code: "A", mode: modes[r.Intn(4)], k: k, v: genVal(t, r)}
+			}
+		case 3:
+			if avail["G"] {
+				return op{code: "G", k: k}
+			}
+		}
+		return op{code: "CK", k: k}
+	}
+	for _, k := range gk {
+		if r.Chance(70) {
+			ops = append(ops, op{code: "P", mode: modes[r.Intn(4)], k: k, v: genVal(t, r)})
+		}
+	}
 	for i := 0; i < n; i++ {
+		if len(gk) > 0 && r.Chance(3) {
+			ops = append(ops, probeOp())
+		}
 		o := op{code: "P", mode: modes[r.Intn(4)], k: mk(i), v: genVal(t, r)}
 		ops = append(ops, o)
 		if r.Chance(6) {
@@ -695,6 +807,12 @@ func genGrowth(t *tdesc, r *vh.Rng, avail map[string]bool, n int) []op {
 		}
 		if r.Chance(1) && avail["SO"] {
 			ops = append(ops, op{code: "SO", asc: r.Bool()})
+		}
+	}
+	for _, k := range gk { // after all the growth: every colliding key is looked up, some removed
+		ops = append(ops, op{code: "CK", k: k})
+		if r.Chance(50) {
+			ops = append(ops, op{code: "R", k: k})
 		}
 	}
 	return ops
@@ -825,6 +943,19 @@ func main() {
 	rep.Rule = "one case = one history (constructor + ≤200 public operations, or a >2500-insert growth history) on one of the 13 linked types; " +
 		"non-trivial = at least one operation changes the state; distinct = different canonical text (type, constructor, operation lines)"
 
+	for _, t := range types {
+		if gs := fullCollide[t.name]; len(gs) > 0 {
+			var names []string
+			for _, g := range gs {
+				var ks []string
+				for _, k := range g {
+					ks = append(ks, t.keyTok(k))
+				}
+				names = append(names, strings.Join(ks, "~"))
+			}
+			rep.Note("full-hash collision groups of %s: %s", t.name, strings.Join(names, " | "))
+		}
+	}
 	if env.Replay != "" {
 		replayFile(env, rep)
 		rep.Write(env.Out)
@@ -980,6 +1111,9 @@ func main() {
 			}
 			rep.Case(sb.String(), nontriv)
 			rep.Count("type:" + h.t.name)
+			if touchesGroup(h.t, h.ops) {
+				rep.Count("history-with-full-hash-collision:" + h.t.name)
+			}
 			rep.Count("ctor:" + h.c.String())
 			rep.Count(fmt.Sprintf("history-length:%s", bucket(len(h.steps))))
 			rep.Count(fmt.Sprintf("max-size:%s", bucket(maxSize)))
@@ -1109,6 +1243,26 @@ func reportShrunk(env *vh.Env, rep *vh.Report, pending []pendingFail) {
 			rep.Fail("property", p.v.key, p.v.summary, p.v.rc)
 		}
 	}
+}
+
+// touchesGroup: does the history insert at least two distinct keys of one full-hash collision group?
+func touchesGroup(t *tdesc, ops []op) bool {
+	for _, g := range fullCollide[t.name] {
+		in := map[key]bool{}
+		for _, k := range g {
+			in[k] = true
+		}
+		put := map[key]bool{}
+		for _, o := range ops {
+			if (o.code == "P" || o.code == "A" || o.code == "U" || o.code == "AN") && in[o.k] {
+				put[o.k] = true
+			}
+		}
+		if len(put) >= 2 {
+			return true
+		}
+	}
+	return false
 }
 
 func bucket(n int) string {
